@@ -165,6 +165,24 @@ var c17HostileLines = []string{
 
 var c17IPLines = c17HostileLines[len(c17HostileLines)-29:]
 
+// c17LongKeyLine draws a JSON, logfmt or packed line with a key of a length at which a fixed-size
+// buffer ends (a power of two, one less, one more), starting with a digit (a label name then
+// gets a prefix: one byte more), a letter or a character a label name cannot hold - a SHA-256
+// digest used as a key is such a key.
+func c17LongKeyLine(t *rapid.T, label string) (line, key string) {
+	n := rapid.SampledFrom([]int{16, 32, 64, 64, 128, 256, 1024, 4096}).Draw(t, label+"-size") + rapid.IntRange(-1, 1).Draw(t, label+"-delta")
+	first := rapid.SampledFrom([]string{"9", "0", "7", "f", "-", "é"}).Draw(t, label+"-first")
+	fill := rapid.SampledFrom([]string{"f", "-", "0", "_"}).Draw(t, label+"-fill")
+	key = first + strings.Repeat(fill, n-len(first))
+	switch rapid.IntRange(0, 3).Draw(t, label+"-form") {
+	case 0:
+		return key + "=v", key
+	case 1:
+		return "{\"_entry\":\"e\",\"" + key + "\":\"v\"}", key
+	}
+	return "{\"" + key + "\":\"v\"}", key
+}
+
 func c17GenRecs(t *rapid.T) []model.Rec {
 	n := rapid.IntRange(0, 8).Draw(t, "nrecs")
 	var recs []model.Rec
@@ -212,7 +230,27 @@ func c17Gen(t *rapid.T) C17Case {
 	c.Params = c17GenParams(t)
 	c.Caps = mockstore.Caps{Label: rapid.IntRange(0, 15).Draw(t, "caps-label"), Line: rapid.IntRange(0, 15).Draw(t, "caps-line")}
 	layout := datagen.RapidLayout{T: t, Heavy: true, Comments: true, RawOK: true}
-	switch rapid.IntRange(0, 12).Draw(t, "origin") {
+	switch rapid.IntRange(0, 13).Draw(t, "origin") {
+	case 13:
+		// Keys of the lengths at which a fixed-size buffer ends, through every stage that turns
+		// keys into label names.
+		c.Origin = "long-keys"
+		q := rapid.SampledFrom([]string{"{} | json", "{} | json", "{}", "{} | logfmt", "{} | unpack", "{} | json | logfmt", `{} | json | line_format "{{ .v }}"`, "{} | logfmt | drop f", "{} | json | keep v"}).Draw(t, "lk-query")
+		if rapid.Bool().Draw(t, "lk-metric") {
+			q = "sum by (f) (count_over_time(" + q + " [1m]))"
+		}
+		c.Query = gen.BS(q)
+		for len(c.Recs) < 5 {
+			c.Recs = append(c.Recs, model.Rec{TS: datagen.BaseTS + int64(len(c.Recs))*250e6, Labels: map[string]string{}})
+		}
+		for i := range c.Recs {
+			line, key := c17LongKeyLine(t, "lk")
+			c.Recs[i].Line = gen.BS(line)
+			if rapid.IntRange(0, 3).Draw(t, "lk-attribute") == 0 {
+				// ... and as the name of an attribute of the record
+				c.Recs[i].Labels[key] = "v"
+			}
+		}
 	case 12:
 		// A template function that takes a pattern of its own (a regular expression, a layout, a
 		// time zone, a format) is given one that is broken - written in the query or taken from
